@@ -51,8 +51,11 @@ var rMinus1 = new(big.Int).Sub(ref.R, big.NewInt(1))
 type polySpec struct {
 	Kind string `json:"kind"` // zero | const | onehot | sparse | dense | max | ramp
 	Seed uint64 `json:"seed,omitempty"`
-	Idx  []int  `json:"idx,omitempty"` // hot positions (onehot / sparse)
+	Idx  []int  `json:"idx,omitempty"` // hot positions (onehot / sparse / recipe)
 	Val  string `json:"val,omitempty"` // hex value (const / onehot)
+	// recipe: structured values (limb patterns, window digits, 2^k-1, ...) at the hot positions, Base elsewhere
+	Vals []scalarSpec `json:"vals,omitempty"`
+	Base int          `json:"base,omitempty"`
 }
 
 func (p polySpec) evals() []*big.Int {
@@ -85,6 +88,15 @@ func (p polySpec) evals() []*big.Int {
 		for i := range f {
 			f[i] = big.NewInt(int64(i%32 + 1 + int(p.Seed%7)))
 		}
+	case "recipe":
+		for i := range f {
+			f[i] = big.NewInt(int64(p.Base))
+		}
+		for k, i := range p.Idx {
+			if k < len(p.Vals) {
+				f[i&255] = p.Vals[k].value()
+			}
+		}
 	case "monomial255": // X^255 in evaluation form
 		for i := range f {
 			f[i] = new(big.Int).Exp(big.NewInt(int64(i)), big.NewInt(255), ref.R)
@@ -109,7 +121,7 @@ func genScalarHex(t *rapid.T, label string) string {
 }
 
 func genPoly(t *rapid.T, label string) polySpec {
-	kind := rapid.SampledFrom([]string{"zero", "const", "onehot", "sparse", "sparse", "dense", "dense", "max", "ramp"}).Draw(t, label+"_kind")
+	kind := rapid.SampledFrom([]string{"zero", "const", "onehot", "sparse", "sparse", "dense", "dense", "max", "ramp", "recipe", "recipe"}).Draw(t, label+"_kind")
 	p := polySpec{Kind: kind}
 	switch kind {
 	case "const":
@@ -122,6 +134,12 @@ func genPoly(t *rapid.T, label string) polySpec {
 		p.Idx = rapid.SliceOfN(rapid.IntRange(0, 255), 1, 6).Draw(t, label+"_idxs")
 	case "dense", "ramp":
 		p.Seed = rapid.Uint64().Draw(t, label+"_seed")
+	case "recipe":
+		p.Base = rapid.SampledFrom([]int{0, 0, 5, 1}).Draw(t, label+"_base")
+		p.Idx = rapid.SliceOfN(rapid.IntRange(0, 255), 1, 4).Draw(t, label+"_idxs")
+		for range p.Idx {
+			p.Vals = append(p.Vals, genScalar(t, label+"_rv", []int{8, 16}))
+		}
 	}
 	return p
 }
@@ -171,12 +189,16 @@ func genOpenSet(t *rapid.T, maxN int, numCPU int) openSet {
 	case 8:
 		n = rapid.IntRange(30, 60).Draw(t, "n_mid")
 	default:
-		n = rapid.IntRange(61, 300).Draw(t, "n_large")
+		if rapid.Bool().Draw(t, "n_large_boundary") { // sizes around 256 per index and around the verifier's MSM window thresholds
+			n = rapid.SampledFrom([]int{128, 129, 130, 255, 256, 257, 300, 320, 321, 322, 511, 512, 513, 768, 769, 770}).Draw(t, "n_lb")
+		} else {
+			n = rapid.IntRange(61, 300).Draw(t, "n_large")
+		}
 	}
 	if n < 1 {
 		n = 1
 	}
-	if n > maxN {
+	if n > maxN && maxN < 300 {
 		n = 1 + n%maxN
 	}
 	shape := rapid.SampledFrom([]string{"allsame", "distinct", "clusters", "extremes", "gaps", "uniform", "uniform"}).Draw(t, "z_pattern")
@@ -210,6 +232,9 @@ func genOpenSet(t *rapid.T, maxN int, numCPU int) openSet {
 			o.Z = (3 + 5*(i%40) + base%3) & 255
 		default:
 			o.Z = rapid.IntRange(0, 255).Draw(t, "z")
+		}
+		if p := os.Polys[o.Poly]; len(p.Idx) > 0 && rapid.IntRange(0, 2).Draw(t, "adjacent") == 0 {
+			o.Z = (p.Idx[0] + 255) & 255 // open right below a hot position: (f(j)-f(z))/(j-z) = f(j)-f(z)
 		}
 		switch repMode {
 		case "mixed":
